@@ -29,6 +29,8 @@ mod c09;
 mod c10;
 mod c11;
 mod c12;
+mod c13;
+mod c14;
 mod conn;
 mod exec;
 mod handler;
@@ -127,6 +129,8 @@ fn main() {
         "C10" => c10::run(&ctx, evidence.as_ref()),
         "C11" => c11::run(&ctx, evidence.as_ref()),
         "C12" => c12::run(&ctx, evidence.as_ref()),
+        "C13" => c13::run(&ctx, evidence.as_ref()),
+        "C14" => c14::run(&ctx, evidence.as_ref()),
         "C15" => c15::run(&ctx, evidence.as_ref()),
         "C16" => c16::run(&ctx, evidence.as_ref()),
         "C17" => c17::run(&ctx, evidence.as_ref()),
